@@ -159,8 +159,7 @@ func (vc *VC) execCall(fr *Frame, st *State, pc string, site ssa.Instruction, c 
 		}
 	}
 	short := shortFuncName(callee)
-	ord := fr.callOrd[short]
-	fr.callOrd[short] = ord + 1
+	ord := vc.callOrdinal(fr, site, short)
 	vc.atCall(fr, st, pc, short, ord, site)
 	spec := vc.eng.specFor(callee)
 	if spec != nil && !spec.Inline {
@@ -380,6 +379,71 @@ type modTarget struct {
 	lo    string // window for element targets ("" = whole array)
 	hi    string
 	isMem bool
+}
+
+// callOrdinal: the k in `F#k` is the position of this call among the calls of F in the function's source text
+// (not the order in which the verifier happens to visit the blocks).
+func (vc *VC) callOrdinal(fr *Frame, site ssa.Instruction, short string) int {
+	if fr.siteOrd == nil {
+		fr.siteOrd = map[ssa.Instruction]int{}
+		type cs struct {
+			in  ssa.Instruction
+			pos token.Pos
+			idx int
+		}
+		by := map[string][]cs{}
+		n := 0
+		for _, b := range fr.fn.Blocks {
+			for _, in := range b.Instrs {
+				var cc *ssa.CallCommon
+				switch t := in.(type) {
+				case *ssa.Call:
+					cc = &t.Call
+				case *ssa.Defer:
+					cc = &t.Call
+				case *ssa.Go:
+					cc = &t.Call
+				}
+				if cc == nil {
+					continue
+				}
+				if _, isB := cc.Value.(*ssa.Builtin); isB {
+					continue
+				}
+				var callee *ssa.Function
+				if cc.IsInvoke() {
+					callee = vc.eng.resolveInvoke(cc)
+				} else {
+					callee = cc.StaticCallee()
+					if callee == nil {
+						callee = vc.eng.resolveDynamic(cc)
+					}
+				}
+				if callee == nil {
+					continue
+				}
+				n++
+				by[shortFuncName(callee)] = append(by[shortFuncName(callee)], cs{in, in.Pos(), n})
+			}
+		}
+		for _, l := range by {
+			sort.SliceStable(l, func(i, j int) bool {
+				if l[i].pos != l[j].pos {
+					return l[i].pos < l[j].pos
+				}
+				return l[i].idx < l[j].idx
+			})
+			for k, x := range l {
+				fr.siteOrd[x.in] = k
+			}
+		}
+	}
+	if k, ok := fr.siteOrd[site]; ok {
+		return k
+	}
+	ord := fr.callOrd[short]
+	fr.callOrd[short] = ord + 1
+	return 1000 + ord
 }
 
 // atCall processes the caller's program-point clauses (`label/assert/assume at call F#k`) keyed by this call.
